@@ -57,6 +57,18 @@ def directed_metric(rng, csys, choice, kind):
        'high'    : one short reciprocal axis, so that the shell reaches indices >= 10 along it;
        'neardeg' : nearly equal axes (relative difference ~1e-6), so that inequivalent reflections are separated by < 1e-6 in sin(theta)/lambda"""
     r = lambda lo, hi: rng.randint(lo, hi)
+    if kind == 'index256':
+        # indices beyond 256 along one axis (a reciprocal axis more than a hundred times shorter than the others), thin shell (see make_directed_case)
+        big = r(9000, 14000)
+        if csys == 'orthorhombic':
+            d = [big, big + r(50, 900), 1]
+            rng.shuffle(d)
+            return [[d[0], 0, 0], [0, d[1], 0], [0, 0, d[2]]], min(x for x in d if x > 1) + 70000
+        if csys == 'tetragonal':
+            return [[big, 0, 0], [0, big, 0], [0, 0, 1]], big + 70000
+        if csys == 'monoclinic':
+            return rng.choice([([[big, 0, 0], [0, 1, 0], [0, 0, big + r(50, 900)]], big + 70000), ([[1, 0, 0], [0, big + r(50, 900), 0], [0, 0, big]], big + 70000)])
+        return None, None
     if kind == 'veryhigh':
         # one very short reciprocal axis (c ~ 100 x the others): indices beyond 100 along it while the other two stay at 0, +-1
         big = r(2500, 4000)
@@ -101,8 +113,9 @@ def make_directed_case(rng, s, kind):
     K, M = directed_metric(rng, s.crystal_system, s.cell_choice, kind)
     if K is None:
         return None
-    S = 400.0 if kind == 'high' else (40000.0 if kind == 'veryhigh' else 400.0 * 100000)
-    return dict(K=K, S=S, cell=cell_of(K, S), M=M, m=None, lo=0.0, hi=0.5 * math.sqrt((M + 0.5) / S), scaled=False, kind=kind)
+    S = 400.0 if kind == 'high' else (40000.0 if kind == 'veryhigh' else (400000.0 if kind == 'index256' else 400.0 * 100000))
+    m = M - 9000 if kind == 'index256' else None
+    return dict(K=K, S=S, cell=cell_of(K, S), M=M, m=m, lo=0.0 if m is None else 0.5 * math.sqrt((m + 0.5) / S), hi=0.5 * math.sqrt((M + 0.5) / S), scaled=False, kind=kind)
 
 
 def call_forms(s, no, ch):
@@ -120,6 +133,8 @@ def plan(k, s, no, ch, case, tools, laue):
     forms = call_forms(s, no, ch)
     if s.cell_choice == 'rhombohedral' and k % 3 == 0:
         return [(m, f) for m in (tools, laue) for f in forms]
+    if case.get('kind') == 'huge':
+        return [((tools, laue)[k % 2], forms[0])]      # one module (they alternate with the seed); the thorough tier's other seeds cover the second
     if case.get('kind'):
         return [(tools, forms[k % 4]), (laue, forms[(k + 1) % 4])]
     return [((tools, laue)[k % 2], forms[(k // 2) % 4])]
@@ -210,13 +225,14 @@ def correspondence(ctx, which, fname):
             except Exception as e:
                 ctx.broken.append(D.Broken('correspondence', 'genhkl_%s raised %s on sgno %d' % (which, type(e).__name__, r['no']), repr(case)))
                 continue
-            lines.append('same (%s ast_laue_sysabs segm_laue 80 (%s) %s %s %s (nth %d all_settings dflt)) %s' % (
-                fn, G, z(Tmin), z(Tmax), z(Tterm), i, hkl_list(sorted(got))))
+            # the same rows as a multiset, and - in the order the implementation returned them - the same sequence of sort keys q(h) as the model's sorted rows
+            lines.append('(let m := %s ast_laue_sysabs segm_laue 80 (%s) %s %s %s (nth %d all_settings dflt) in same m %s && keyseq_ok (%s) m %s)' % (
+                fn, G, z(Tmin), z(Tmax), z(Tterm), i, hkl_list(sorted(got)), G, hkl_list(got)))
             ctx.count(('corr', which, i, rep), hist='corr:%s:%s%s' % (which, r['csys'], (':' + case['kind']) if case.get('kind') else ''),
                       sample={'sgno': r['no'], 'cell_choice': ch, 'cell': case['cell'], 'sintlmin': case['lo'], 'sintlmax': case['hi'], 'rows': len(got)} if len(lines) == 1 else None)
             ctx.cov['disagreements_checked'] += 1
     text = ('(* GENERATED on every run: the traversal model evaluated in Coq against genhkl_%s *)\n'
-            'From Coq Require Import ZArith List Bool String.\nFrom XV Require Import SGroup HklModel Traverse Tab_segm Ast_laue Tab_sg_all.\nImport ListNotations.\nOpen Scope Z_scope.\n'
+            'From Coq Require Import ZArith List Bool String.\nFrom XV Require Import SGroup HklModel Traverse HklSort Tab_segm Ast_laue Tab_sg_all.\nImport ListNotations.\nOpen Scope Z_scope.\n'
             'Definition dflt : sgrec := mkSg 0 EmptyString EmptyString EmptyString EmptyString 0 0 [] [] [].\n'
             'Definition hle (a b : hkl) : bool := let \'(x, y, z) := a in let \'(x\', y\', z\') := b in\n'
             '  (x <? x\') || ((x =? x\') && ((y <? y\') || ((y =? y\') && (z <=? z\')))).\n'
@@ -251,10 +267,21 @@ def search_cases(ctx):
     for csys, lst in sorted(by_sys.items()):
         picks = lst if (ctx.broken or not ctx.quick) and len(lst) <= 80 else rng.sample(lst, min(len(lst), 2 if ctx.quick else 12))
         for no, s in picks:
-            for kind in ('high', 'neardeg', 'veryhigh'):
+            for kind in ('high', 'neardeg', 'veryhigh', 'index256'):
                 c = make_directed_case(rng, s, kind)
                 if c is not None:
                     out.append((no, 'standard', s, c))
+    # one very large reflection list (more than 65536 rows in the asymmetric unit, more than 131072 in all): P-1 with an orthogonal metric
+    s2 = sg.sg(sgno=2)
+    a, b, c = round(rng.uniform(32.5, 33.5), 3), round(rng.uniform(33.6, 34.6), 3), round(rng.uniform(34.7, 35.7), 3)
+    hi = 0.5
+    for _ in range(50):
+        # keep the bound 1e-7 (relative) away from every axial and low-order reflection's sin(theta)/lambda; a generic cell has no other lattice point that close
+        stl = [0.5 * math.sqrt((h / a) ** 2 + (k / b) ** 2 + (l / c) ** 2) for h in range(0, 36) for k in range(0, 37) for l in range(0, 38)]
+        if min(abs(x - hi) for x in stl) > 1e-7 * hi:
+            break
+        hi -= 1.37e-5
+    out.append((2, 'standard', s2, dict(K=[[1, 0, 0], [0, 1, 0], [0, 0, 1]], S=1.0, cell=[a, b, c, 90.0, 90.0, 90.0], M=None, m=None, lo=0.0, hi=hi, scaled=False, kind='huge')))
     if ctx.broken or not ctx.quick:
         # directed sweep: Laue -3 on rhombohedral axes (the only place where the 1.1 look-ahead factor acts), acute cells, large shells
         for no in (146, 148):
